@@ -113,11 +113,28 @@ class XmlInterp(A.Interp):
             return ("term", "BytesText::new" if s2 == "BytesText::new" else "BytesText::from_escaped", (args[0],))
         if s2 in ("Iterator::try_for_each", "Iterator::for_each"):
             o = self._out()
-            o["star"].append(star_of(args[0]))
-            try:
-                self.apply(args[1], [self.elem_of(args[0], node, depth)], node, depth)
-            finally:
-                o["star"].pop()
+
+            def each(itv, pre):
+                """One iteration's contribution per source: `a.chain(b)` is a's elements then b's; `src.map(f)` hands f(element) on."""
+                v = itv
+                while isinstance(v, tuple) and v[0] == "term" and T.short(v[1], 2) in A.ITER_IDENTITY and v[2]:
+                    v = v[2][0]
+                if isinstance(v, tuple) and v[0] == "term" and T.short(v[1], 2) == "Iterator::chain" and len(v[2]) == 2:
+                    each(v[2][0], pre)
+                    each(v[2][1], pre)
+                    return
+                if isinstance(v, tuple) and v[0] == "term" and T.short(v[1], 2) == "Iterator::map" and len(v[2]) == 2:
+                    each(v[2][0], [v[2][1]] + pre)
+                    return
+                o["star"].append(star_of(itv))
+                try:
+                    el = self.elem_of(itv, node, depth)
+                    for f in pre:
+                        el = self.apply(f, [el], node, depth)
+                    self.apply(args[1], [el], node, depth)
+                finally:
+                    o["star"].pop()
+            each(args[0], [])
             return A.ok(("unit",)) if s2.endswith("try_for_each") else ("unit",)
         if s2 == "Write::write_all" or s2.endswith("::write_all"):
             self.emit({"tag": None, "raw": describe(args[1]), "attrs": [], "children": [], "text": None, "sp": node.get("sp")})
